@@ -112,7 +112,7 @@ DevWitverDropped(r, D) == D.k = "wit" /\ D.v >= 2 /\ r.obs.lock = LockT(Wit(1, D
 \* a 20-byte witness program of version >= 1 is paid as version 0 (P2WPKH)
 DevV1Plus20(r, D) == D.k = "wit" /\ D.v >= 1 /\ Len(D.p) = 20 /\ r.obs.lock = LockT(Wit(0, D.p))
 \* an Address / HDKey object of another network is accepted; the output silently adopts the object's network
-DevForeignObject(r, a) == /\ r.route \in {"obj", "parse", "parse_nw", "hdkey", "tx_obj"} /\ a.ok /\ r.obs.ok
+DevForeignObject(r, a) == /\ r.route \in {"obj", "parse", "parse_nw", "hdkey", "tx_obj", "tx_hdkey"} /\ a.ok /\ r.obs.ok
                           /\ r.x \in NetworksOf(a) /\ r.obs.lock = Lock(DestFor(a, r.x)) /\ r.obs.addr = r.a0
 \* the payload length is not checked against the requested type: the template is filled with whatever was given
 DevLengthFwd(r) == /\ r.route = "hash" /\ r.obs.ok /\ ~ValidDest(MkDest(r.dk, r.wv, r.p))
@@ -122,6 +122,12 @@ DevP2trFromKey(r) == r.route = "pubkey" /\ r.st = "p2tr" /\ r.obs.ok /\ r.obs.lo
 \* Address.parse forgets the witness version: the object re-encodes the program with version 0
 DevParseWitver(r) == /\ r.route \in {"parse", "parse_nw"} /\ r.dk = "wit" /\ r.wv >= 1 /\ r.objok
                      /\ r.oa = SegwitEncode(NetOf(r.x).hrp, 0, r.p)
+
+\* asking a key object for its uncompressed address (address_uncompressed(), address(compressed=False)) earlier
+\* switches the object: afterwards it stands for the HASH160 of the uncompressed public key (r.pu) or is refused
+DevUncompressed(r) == /\ r.route \in {"hdkey", "tx_hdkey"}
+                      /\ \E i \in 1..Len(r.prior) : r.prior[i] \in {"addr_uncompressed", "addr_compressed_false"}
+                      /\ (r.obs.ok /\ r.dk = "pkh") => r.obs.lock = LockT(PKH(r.pu))
 
 JFwd(r) ==
     LET a == DecodeAddr(r.a0)
@@ -142,11 +148,15 @@ JFwd(r) ==
                    IF DevForeignObject(r, a) THEN "foreign-network-object-accepted"
                    ELSE IF DevLengthFwd(r) THEN "payload-length-not-checked"
                    ELSE IF DevP2trFromKey(r) THEN "p2tr-from-public-key-uses-hash160" ELSE "", <<>>))
-    ELSE IF ~o.ok THEN (IF Standard(D) THEN Bad("standard-destination-refused", "", Lock(D)) ELSE Ok)
+    ELSE IF ~o.ok THEN (IF Standard(D)
+                        THEN Bad("standard-destination-refused",
+                                 IF DevUncompressed(r) THEN "uncompressed-address-query-switches-key" ELSE "", Lock(D))
+                        ELSE Ok)
     ELSE IF o.lock # Lock(D)
     THEN Bad("lock-script", IF DevWitverDropped(r, D) THEN "witness-version-above-1-paid-as-v1"
                             ELSE IF DevV1Plus20(r, D) THEN "witness-v1plus-20byte-paid-as-p2wpkh"
-                            ELSE IF DevHexFwd(r) THEN "hex-text-payload-unhexlified" ELSE "", Lock(D))
+                            ELSE IF DevHexFwd(r) THEN "hex-text-payload-unhexlified"
+                            ELSE IF DevUncompressed(r) THEN "uncompressed-address-query-switches-key" ELSE "", Lock(D))
     ELSE IF Standard(D) /\ o.type # TypeName(D) THEN Bad("script-type", "", <<>>)
     ELSE IF ~Standard(D) /\ o.type \in LegacyFour THEN Bad("script-type", "", <<>>)
     ELSE IF o.hash # D.p THEN Bad("public-hash", IF DevHexFwd(r) THEN "hex-text-payload-unhexlified" ELSE "", D.p)
@@ -204,7 +214,22 @@ JRev(r) ==
              ELSE IF devKey THEN "address-from-embedded-public-key" ELSE "", <<>>)
     ELSE Ok
 
+\* ---- relational judgement over the witness versions 1..16 of one program size on one route and network: what is
+\* "answered" (reverse: an address is reported; forward: the output is built) is answered for every version or for none.
+\* Each single answer has been judged above; this catches a version that alone is silently answered "unknown" / refused.
+JUniform(r) ==
+    LET Answered(e) == e.ok /\ (r.dir = "rev" => e.addr # <<>>)
+        I == 1..Len(r.answers)
+        yes == {r.answers[i].wv : i \in {j \in I : Answered(r.answers[j])}}
+        no == {r.answers[i].wv : i \in {j \in I : ~Answered(r.answers[j])}}
+        SetToSeq(S) == LET RECURSIVE F(_)
+                           F(T) == IF T = {} THEN <<>> ELSE LET m == CHOOSE q \in T : \A z \in T : q <= z IN <<m>> \o F(T \ {m})
+                       IN F(S)
+    IN IF yes # {} /\ no \ yes # {} THEN Bad("witness-versions-answered-unevenly", "", <<SetToSeq(yes), SetToSeq(no \ yes)>>)
+       ELSE Ok
+
 Judge(r) == CASE r.k = "build" -> Build(r)
+              [] r.k = "uniform" -> JUniform(r)
               [] r.k = "fwd" -> JFwd(r)
               [] r.k = "rev" -> JRev(r)
               [] OTHER -> Bad("unknown-record-kind", "", <<>>)
